@@ -132,7 +132,7 @@ def explore(ctx):
     from cvise.passes.abstract import AbstractPass
     valid = [o.value for o in AbstractPass.Option]
     shipped = {}
-    for f in sorted(glob.glob('/repo/cvise/pass_groups/*.json')):
+    for f in sorted(glob.glob(os.path.join(os.environ.get('VERIF_REPO', '/repo'), 'cvise/pass_groups/*.json'))):
         shipped[os.path.basename(f)] = json.load(open(f))
     cases = []
 
